@@ -26,7 +26,7 @@ EXPLANATION = (
     "(3) Purity: holder/runner accessors have an empty frame (frame obligations incl. in-place `|=` through aliases); lemma "
     "clients over the contracts show that repeated / reordered accessor calls give the same answers and evaluate once. "
     "NOT decided by proof: order-independence of the column-level code (expand_wildcard, to_source_columns, resolution phase); "
-    "the native seed run (bounded) covers it; known finding D12."
+    "the native seed run (bounded) covers it (D12, found there, is repaired)."
 )
 TRUSTED = ["pyvc translator (set iteration = adversarial order)", "z3", "sqlfluff / sqlparse / networkx deterministic given their inputs", "A_eq"]
 ASSUMPTIONS = [
@@ -42,15 +42,15 @@ BOUNDED = [
         "script": "replay/c11_native.py",
         "args_quick": ["--seeds", "4"],
         "args_thorough": ["--seeds", "32"],
-        "bound": "9 scripts (chains, self loop, diamond paths, metadata-positional INSERT, wildcard with metadata, multi-pair RENAME, CTEs) x PYTHONHASHSEED in 0..3 (thorough 0..31), canonical dump of every public accessor; all 6 orders of the table accessors + 4 mixed/repeated orders on one runner",
+        "bound": "10 scripts (chains, self loop, diamond paths, metadata-positional INSERT, wildcard with metadata incl. the repaired D12 join, multi-pair RENAME, CTEs) x PYTHONHASHSEED in 0..3 (thorough 0..31), canonical dump of every public accessor; all 6 orders of the table accessors + 4 mixed/repeated orders on one runner",
     }
 ]
 LEVEL_TEXT = (
     "Proof (z3) of order-independence of the table-level assembly by the adversarial-order loop rule, of the sorted public "
     "lists, of accessor purity (frames) and of repeated/reordered accessor calls (lemma clients over contracts); K3 pick-site "
-    "discipline by scan. Column-level order independence and process-level seeds are a bounded native stand-in; D12 is an open "
-    "known finding."
+    "discipline by scan. Column-level order independence and process-level seeds are a bounded native stand-in; D12 "
+    "was repaired."
 )
 DESIGN_REF = "DESIGN.md 6/C11, 11"
-LEVEL_NOTE = "trusted: pyvc (adversarial set order), z3, deterministic third-party libraries; column-level code bounded only; D12 open; D5, D16 repaired"
+LEVEL_NOTE = "trusted: pyvc (adversarial set order), z3, deterministic third-party libraries; column-level code bounded only; D5, D12, D16 repaired"
 TECHNIQUE = "contract-based deductive verification with adversarial-order loop rule + purity frames + pick-site scan + bounded native seed run"
